@@ -25,6 +25,10 @@
     `readPatch_render_apply`  … hence so does what was read back (reference semantics)
     `readPatch_render_patch`  … and the library's `Patch` (via JdProofs.StrictPatch), up to `untag`
 
+  The reader's coalescing rule is the one after fix D26 (an element that removes is not coalesced
+  into a hunk that already adds); inside one rendered hunk all removals precede all additions, so
+  the rule never fires there (`absorb_rems` carries `cur.add = []`).
+
   Hypothesis `FloatLaws` (only `refl` is used): the reader compares the value of each `test` with
   the value of the `remove` that follows, and the paths of consecutive elements, with `Equals`;
   float comparison is opaque to the kernel.
@@ -47,6 +51,8 @@ import JdProofs.Common
 import JdProofs.PatchRender
 import JdProofs.NativeRoundTrip
 import JdProofs.CliProofs
+import JdProofs.SourceTables
+import JdProofs.DiffMinimal
 
 namespace Jd.PB
 open Jd Jd.Spec
@@ -289,7 +295,8 @@ def pushElem (acc : Diff) (e : Hunk) : Diff :=
   match acc.getLast? with
   | none => [e]
   | some last =>
-    if equals [] (pathToJson last.path) (pathToJson e.path) && !(hasContext e) then
+    if equals [] (pathToJson last.path) (pathToJson e.path) && !(hasContext e) &&
+       !(!e.remove.isEmpty && !last.add.isEmpty) then
       acc.dropLast ++ [{ last with remove := last.remove ++ e.remove,
                                    add := if lastIdx? e.path == some (-1) then last.add ++ e.add else e.add ++ last.add }]
     else acc ++ [e]
@@ -518,12 +525,16 @@ def addRun (s : String) (bs : List Json) : List PatchOp := bs.map (adp s)
 
 theorem pushElem_merge {pre : Diff} {cur e : Hunk} (hpath : e.path = cur.path)
     (heq : pathEq cur.path cur.path = true) (hl : lastIdx? cur.path ≠ some (-1))
-    (hc : hasContext e = false) :
+    (hc : hasContext e = false) (hra : e.remove = [] ∨ cur.add = []) :
     pushElem (pre ++ [cur]) e =
       pre ++ [{ cur with remove := cur.remove ++ e.remove, add := e.add ++ cur.add }] := by
   have hl' : (lastIdx? cur.path == some (-1)) = false := by simpa using hl
+  have hra' : (!e.remove.isEmpty && !cur.add.isEmpty) = false := by
+    rcases hra with h | h <;> simp [h]
   unfold pathEq at heq
-  simp [pushElem, hpath, heq, hc, hl']
+  simp only [pushElem, List.getLast?_append, List.getLast?_singleton, Option.some_or, hpath, heq, hc,
+    hra', Bool.not_false, Bool.and_self, if_true, List.dropLast_concat, hl', Bool.false_eq_true,
+    if_false]
 
 /-- what must hold between the accumulator and the next element for it not to be coalesced -/
 def sep (acc : Diff) (p : Path) (ctx : Bool) : Bool :=
@@ -561,20 +572,22 @@ structure PCtx (s : String) (p : Path) : Prop where
 theorem absorb_rems (L : FloatLaws) {s : String} {p : Path} (C : PCtx s p) {i : Int}
     (hi : lastIdx? p = some i) :
     ∀ (ys : List Json), ys.all valOK = true → ∀ (n : Nat) (tl : List PatchOp) (pre : Diff) (cur : Hunk),
-      cur.path = p →
+      cur.path = p → cur.add = [] →
       readPatchLoop (n + ys.length) (remPairs s ys ++ tl) (pre ++ [cur]) =
         readPatchLoop n tl (pre ++ [{ cur with remove := cur.remove ++ ys }])
-  | [], _, n, tl, pre, cur, _ => by simp [remPairs]
-  | y :: ys, hv, n, tl, pre, cur, hc => by
+  | [], _, n, tl, pre, cur, _, _ => by simp [remPairs]
+  | y :: ys, hv, n, tl, pre, cur, hc, ha0 => by
     simp only [List.all_cons, Bool.and_eq_true] at hv
     have : remPairs s (y :: ys) ++ tl = tst s y :: rmv s y :: (remPairs s ys ++ tl) := by
       simp [remPairs]
     rw [this, show n + (y :: ys).length = (n + ys.length) + 1 by simp; omega, readPatchLoop_cons,
       readHunk_rem_idx C.rp hi (equals_self L hv.1)]
     simp only
-    rw [pushElem_merge (by exact hc.symm) (by rw [hc]; exact C.eq) (by rw [hc]; exact C.nl) rfl]
-    refine (absorb_rems L C hi ys hv.2 n tl pre _ ?_).trans ?_
+    rw [pushElem_merge (by exact hc.symm) (by rw [hc]; exact C.eq) (by rw [hc]; exact C.nl) rfl
+      (Or.inr ha0)]
+    refine (absorb_rems L C hi ys hv.2 n tl pre _ ?_ ?_).trans ?_
     · exact hc
+    · simp [ha0]
     · simp
 
 theorem absorb_adds {s : String} {p : Path} (C : PCtx s p) :
@@ -588,7 +601,8 @@ theorem absorb_adds {s : String} {p : Path} (C : PCtx s p) :
     rw [this, show n + (b :: bs).length = (n + bs.length) + 1 by simp; omega, readPatchLoop_cons,
       readHunk_add C.rp C.nl]
     simp only
-    rw [pushElem_merge (by exact hc.symm) (by rw [hc]; exact C.eq) (by rw [hc]; exact C.nl) rfl]
+    rw [pushElem_merge (by exact hc.symm) (by rw [hc]; exact C.eq) (by rw [hc]; exact C.nl) rfl
+      (Or.inl rfl)]
     refine (absorb_adds C bs n tl pre _ ?_).trans ?_
     · exact hc
     · simp
@@ -596,7 +610,8 @@ theorem absorb_adds {s : String} {p : Path} (C : PCtx s p) :
 /-- everything after the first element of a hunk is coalesced into it -/
 theorem after_first (L : FloatLaws) {s : String} {p : Path} (C : PCtx s p)
     (R' : List Json) (hR : R'.all valOK = true) (hidx : R' ≠ [] → ∃ i, lastIdx? p = some i)
-    (bs : List Json) (n : Nat) (tl : List PatchOp) (acc : Diff) (e1 : Hunk) (he : e1.path = p) :
+    (bs : List Json) (n : Nat) (tl : List PatchOp) (acc : Diff) (e1 : Hunk) (he : e1.path = p)
+    (ha0 : R' ≠ [] → e1.add = []) :
     readPatchLoop (n + (R'.length + bs.length)) (remPairs s R' ++ (addRun s bs ++ tl)) (acc ++ [e1]) =
       readPatchLoop n tl (acc ++ [{ e1 with remove := e1.remove ++ R', add := bs.reverse ++ e1.add }]) := by
   cases R' with
@@ -607,7 +622,7 @@ theorem after_first (L : FloatLaws) {s : String} {p : Path} (C : PCtx s p)
   | cons y ys =>
     obtain ⟨i, hi⟩ := hidx (by simp)
     rw [show n + ((y :: ys).length + bs.length) = (n + bs.length) + (y :: ys).length by omega,
-      absorb_rems L C hi (y :: ys) hR (n + bs.length) _ acc e1 he]
+      absorb_rems L C hi (y :: ys) hR (n + bs.length) _ acc e1 he (ha0 (by simp))]
     exact absorb_adds C bs n tl acc _ he
 
 
@@ -812,6 +827,7 @@ theorem hunk_loop (L : FloatLaws) {h : Hunk} (hw : PBwfH h = true) {ops : List P
         simp only
         rw [pushElem_sep (e := { path := h.path, add := [b1] }) hs']
         have := after_first L C [] rfl (by simp) bs n tl acc { path := h.path, add := [b1] } rfl
+          (fun hne => absurd rfl hne)
         simp only [remPairs, List.flatMap_nil, List.nil_append, addRun, List.length_nil] at this
         rw [this, hadd']
     | cons x1 R' =>
@@ -828,6 +844,7 @@ theorem hunk_loop (L : FloatLaws) {h : Hunk} (hw : PBwfH h = true) {ops : List P
       simp only
       rw [pushElem_sep (e := { path := h.path, remove := [x1] }) hs']
       have := after_first L C [] rfl (by simp) h.add.reverse n tl acc { path := h.path, remove := [x1] } rfl
+        (fun _ => rfl)
       simp only [remPairs, List.flatMap_nil, List.nil_append, List.length_nil] at this
       rw [this]
       simp
@@ -867,6 +884,7 @@ theorem hunk_loop (L : FloatLaws) {h : Hunk} (hw : PBwfH h = true) {ops : List P
         have := after_first L C [] rfl (by simp) bs n tl acc
           { path := h.path, before := if realCtx h.before || realCtx h.after then normCtx h.before else [],
             after := if realCtx h.before || realCtx h.after then normCtx h.after else [], add := [b1] } rfl
+          (fun hne => absurd rfl hne)
         simp only [remPairs, List.flatMap_nil, List.nil_append, addRun, List.length_nil] at this
         rw [this]
         congr 2
@@ -885,6 +903,7 @@ theorem hunk_loop (L : FloatLaws) {h : Hunk} (hw : PBwfH h = true) {ops : List P
       rw [pushElem_sep (by rw [hasContext_eq] at hs ⊢; simpa [realCtx_normCtx] using hs)]
       have := after_first L C R' hR.2 (fun _ => ⟨i, hl⟩) h.add.reverse n tl acc
         { path := h.path, before := normCtx h.before, after := normCtx h.after, remove := [x1] } rfl
+        (fun _ => rfl)
       rw [this]
       congr 2
       simp [normH, hl, hrem]
